@@ -187,6 +187,13 @@ for _p in ("C01", "C02", "C03", "C04", "C07", "C09", "C10", "C15", "C16", "C06",
     FAMILIES[_p] = family_core
 
 
+def family_c08(prop, fail, unit_res, repo, verif, build):
+    return _core_replay("c08_family", lambda scratch: [scratch], repo, verif, build)
+
+
+FAMILIES["C08"] = family_c08
+
+
 def family_c13(prop, fail, unit_res, repo, verif, build):
     return _core_replay("c13_family", lambda scratch: [scratch], repo, verif, build)
 
